@@ -656,3 +656,27 @@ pub fn is_stable_by_definition(p: &asp::Program, facts: &Interp, j: &Interp) -> 
     }
     Some(true)
 }
+
+/// A guided pair (H subset-of T) for a program: T is the closure of the program over the atoms of
+/// `seed_atoms` (every rule without negation is satisfied), in three cases of four with one atom taken out
+/// again; H is T, in one case of three without one more atom. Whether a rule holds in such a pair hinges on
+/// single atoms, which random extents almost never achieve. None when the closure is not computable.
+pub fn guided_pair(p: &asp::Program, seed_atoms: &Interp, preds: &[(String, usize)], selector: usize) -> Option<(Interp, Interp)> {
+    let mut t = closure(p, seed_atoms, 300)?;
+    for q in preds {
+        t.preds.entry(q.clone()).or_default();
+    }
+    let atoms = t.atoms();
+    if !atoms.is_empty() && selector % 4 != 0 {
+        let (k, tuple) = atoms[(selector / 4) % atoms.len()].clone();
+        t.preds.get_mut(&k).unwrap().remove(&tuple);
+    }
+    let mut h = t.clone();
+    let atoms = h.atoms();
+    if !atoms.is_empty() && (selector / 2) % 3 == 0 {
+        let (k, tuple) = atoms[(selector / 16) % atoms.len()].clone();
+        h.preds.get_mut(&k).unwrap().remove(&tuple);
+    }
+    Some((h, t))
+}
+
